@@ -60,5 +60,8 @@ func (p Params) Validate() error {
 	if p.ProviderStakingRewardsPortion.IsNegative() {
 		return fmt.Errorf("ProviderStakingRewardsPortion cannot be negative: %s", p.ProviderStakingRewardsPortion.String())
 	}
+	if p.ProviderStakingRewardsPortion.GT(sdkmath.LegacyOneDec()) {
+		return fmt.Errorf("ProviderStakingRewardsPortion cannot be greater than 1: %s", p.ProviderStakingRewardsPortion.String())
+	}
 	return nil
 }
